@@ -12,6 +12,7 @@ import (
 	"github.com/tetratelabs/wazero"
 	"github.com/tetratelabs/wazero/api"
 	"github.com/tetratelabs/wazero/experimental/table"
+	"github.com/tetratelabs/wazero/sys"
 
 	"verif/internal/wasmgen"
 	"verif/internal/wz"
@@ -167,13 +168,18 @@ func (h *Host) Instantiate(ctx context.Context, rt wazero.Runtime, m *wasmgen.Mo
 			fn = api.GoModuleFunc(func(ctx context.Context, mod api.Module, stack []uint64) {
 				arg := uint32(stack[0])
 				h.log(h.state(mod), fmt.Sprintf("closer(%d)", arg))
-				if h.Global != nil {
+				if h.Global != nil && arg&7 != 1 { // (a call that ends by unwinding has no results to record)
 					h.Global.Calls = append(h.Global.Calls, fmt.Sprintf("closer(%x,)->0,", arg))
 				}
 				if arg&7 == 0 {
 					// closes the calling module and returns normally: the guest keeps running until it
 					// reaches a termination check (close-on-context-done runtimes) or returns
 					_ = mod.CloseWithExitCode(ctx, 7)
+				}
+				if arg&7 == 1 {
+					// the way WASI proc_exit ends a guest: close the caller, then unwind with the exit error
+					_ = mod.CloseWithExitCode(ctx, 9)
+					panic(sys.NewExitError(9))
 				}
 				stack[0] = 0
 			})
@@ -650,11 +656,12 @@ func (t *Trace) HasKind(k string) bool {
 // Session holds one runtime, the host environment and one compiled module from which
 // several instances can be created and driven step by step.
 type Session struct {
-	RT   wazero.Runtime
-	Host *Host
-	CM   wazero.CompiledModule
-	M    *wasmgen.Module
-	sigs map[string]wasmgen.Sig
+	RT        wazero.Runtime
+	Host      *Host
+	CM        wazero.CompiledModule
+	FromBytes bool // instantiate from the binary (code closes with the instance) instead of the kept CompiledModule
+	M         *wasmgen.Module
+	sigs      map[string]wasmgen.Sig
 }
 
 // NewSession compiles m in rt and instantiates the host environment (once per runtime).
@@ -710,7 +717,15 @@ func (s *Session) InstantiateNamed(ctx context.Context, mc wazero.ModuleConfig, 
 			}
 		}()
 		s.Host.cur = nil
-		mod, err := s.RT.InstantiateModule(ctx, s.CM, mc.WithName(name).WithStartFunctions())
+		var mod api.Module
+		var err error
+		if s.FromBytes {
+			// Runtime.InstantiateWithConfig: the compiled code is owned by the instance and is
+			// released when the instance is closed (also when it closes itself mid-call)
+			mod, err = s.RT.InstantiateWithConfig(ctx, s.M.Bytes, mc.WithName(name).WithStartFunctions())
+		} else {
+			mod, err = s.RT.InstantiateModule(ctx, s.CM, mc.WithName(name).WithStartFunctions())
+		}
 		in.Tr.Inst = wz.Classify(err)
 		if err == nil {
 			in.Mod = mod
